@@ -6,7 +6,7 @@ pids="$@"; [ -z "$pids" ] && pids=${name:0:3}
 cd /verif
 export VERIF_EVIDENCE_DIR=/verif/work/evidence_seeded   # never overwrite the evidence of the unchanged tree
 if [ -n "$(git -C /repo status --porcelain --untracked-files=no)" ]; then echo "/repo not clean"; exit 2; fi
-trap 'git -C /repo checkout -- . ; python3 /verif/tools/extract_consts.py >/dev/null' EXIT
+trap 'git -C /repo checkout -- . ; python3 /verif/tools/extract_consts.py >/dev/null; python3 /verif/tools/rs2v.py >/dev/null' EXIT
 git -C /repo apply /verif/seeded/$name/patch.diff || { echo "$name APPLY-FAIL"; exit 2; }
 for p in $pids; do
   out=$(python3 tools/check.py $p --tier quick 2>&1); rc=$?
